@@ -274,7 +274,7 @@ func checkC06(p *Prog, r *Report) {
 		})
 		for _, b := range fn.Blocks {
 			for _, ins := range b.Instrs {
-				if mu, ok := ins.(*ssa.MapUpdate); ok && strings.HasSuffix(Path(mu.Map), ".operations") {
+				if mu, ok := ins.(*ssa.MapUpdate); ok && strings.HasSuffix(Path(mu.Map), "."+FN("Feature.operations")) {
 					upd = mu
 				}
 			}
